@@ -883,7 +883,9 @@ def q_trim(q):
 
 @model("BufferQueue::default", "<BufferQueue as Default>::default")
 def bq_default(m, a, c):
-    return BufQ()
+    q = BufQ()
+    m.notes.setdefault("aux_queues", []).append(q)
+    return q
 
 
 @model("BufferQueue::is_empty")
@@ -1136,3 +1138,49 @@ def cmp_max(m, a, c):
     if isinstance(x, int) and isinstance(y, int):
         return max(x, y)
     raise Unsupported("symbolic max")
+
+
+# ---------------------------------------------------------------- profiling support (clock stub: every duration is 0 ns)
+@model("Instant::now")
+def instant_now(m, a, c):
+    return Opaque("Instant")
+
+
+@model("Instant::elapsed")
+def instant_elapsed(m, a, c):
+    return Opaque("Duration")
+
+
+@model("Duration::as_nanos")
+def duration_as_nanos(m, a, c):
+    return 0
+
+
+class MapM:
+    __slots__ = ("d",)
+
+    def __init__(self):
+        self.d = {}
+
+
+@model("BTreeMap::new")
+def btreemap_new2(m, a, c):
+    return MapM()
+
+
+@model("BTreeMap::get_mut")
+def btreemap_get_mut(m, a, c):
+    mp = deref(a[0])
+    k = repr(deref(a[1]))
+    if k in mp.d:
+        return some(Ptr(mp.d[k], 0))
+    return none()
+
+
+@model("BTreeMap::insert")
+def btreemap_insert(m, a, c):
+    mp = deref(a[0])
+    k = repr(a[1])
+    old = mp.d.get(k)
+    mp.d[k] = [a[2]]
+    return some(old[0]) if old else none()
